@@ -1379,6 +1379,43 @@ fn c10(ctx: &Ctx, gi: usize, ri: usize, rep: &mut Report, note: &dyn Fn(&str)) {
                     label.into(),
                 ));
             }
+            // the rendered message names exactly the recorded rules, each under the right heading
+            if let Some(text) = &er.text {
+                let (mut tp, mut tn) = (std::collections::BTreeSet::new(), std::collections::BTreeSet::new());
+                let mut rest = text.as_str();
+                while let Some(i) = rest.find("xpected [") {
+                    let negative = rest[..i].ends_with("Une") || rest[..i].ends_with("une");
+                    let after = &rest[i + "xpected [".len()..];
+                    let close = after.find(']').unwrap_or(after.len());
+                    for name in after[..close].split(',').map(|x| x.trim()).filter(|x| !x.is_empty()) {
+                        if negative {
+                            tn.insert(name.to_string());
+                        } else {
+                            tp.insert(name.to_string());
+                        }
+                    }
+                    rest = &after[close..];
+                }
+                let (mut sp, mut sn) = (std::collections::BTreeSet::new(), std::collections::BTreeSet::new());
+                for at in &wc.attempts {
+                    for r in &at.positives {
+                        sp.insert(g.rule_name(*r).to_string());
+                    }
+                    for r in &at.negatives {
+                        sn.insert(g.rule_name(*r).to_string());
+                    }
+                }
+                if tp != sp || tn != sn {
+                    rep.violation(case.violation(
+                        "rendered-message-differs-from-recorded-attempts",
+                        format!("expected {:?} unexpected {:?}", sp, sn),
+                        format!("expected {:?} unexpected {:?} in {:?}", tp, tn, text),
+                        label.into(),
+                    ));
+                } else {
+                    rep.cell("rendered-message-compared");
+                }
+            }
             let l = wc.tracker_pos;
             for at in &wc.attempts {
                 for r in &at.positives {
